@@ -66,6 +66,16 @@ CLAIMED = {
             "for the fixed-structure patterns; open known findings listed in known_findings.jsonl",
             "contract-based deductive verification: token-string VCs in linear integer arithmetic (z3) from the live AST",
             "DESIGN.md section 4 C08"),
+    'C10': ("Leaf level (proved, symbolic): every primitive decoder on an arbitrary string (z3 string) and on every literal "
+            "matching its pattern with unconstrained digit fields returns or raises a Client-family Fault -- stdlib calls "
+            "are modelled with their documented raise-sets and every raising fork must be converted by the code around "
+            "it. Structure level (bounded, labelled): the real pipeline on every value kind at every argument position, "
+            "25 XML mutations x 3 validators, every prefix truncation, byte-level and transport-level hostile inputs.",
+            "assumed raise-sets of int/float/Decimal/date/time/b64decode/unhexlify/UUID/strptime and of the "
+            "lxml/json/yaml/msgpack parsers; regex match outcome forked where the pattern is not translated",
+            "contract-based deductive verification: exceptional postconditions with may-raise callee models + bounded "
+            "structure-aware enumeration through the interpreted pipeline",
+            "DESIGN.md section 4 C10"),
 }
 NOT_YET = {}
 for i in range(1, 19):
